@@ -8,6 +8,8 @@ import (
 	"encoding/json"
 	"errors"
 	"io"
+	"os"
+	"syscall"
 
 	"github.com/schollz/progressbar/v3"
 )
@@ -66,7 +68,26 @@ type vFaultyWriter struct {
 	failCall int
 	short    bool
 	once     bool // only the failCall-th call fails; later calls succeed again
+	errno    string
 	writes   []int
+}
+
+// the error a write(2) on a real descriptor would surface (*PathError around an errno), or an opaque error value
+func (w *vFaultyWriter) fail(opaque error) error {
+	var e syscall.Errno
+	switch w.errno {
+	case "EAGAIN":
+		e = syscall.EAGAIN
+	case "EINTR":
+		e = syscall.EINTR
+	case "ENOSPC":
+		e = syscall.ENOSPC
+	case "EPIPE":
+		e = syscall.EPIPE
+	default:
+		return opaque
+	}
+	return &os.PathError{Op: "write", Path: "/dev/stdout", Err: e}
 }
 
 func (w *vFaultyWriter) Write(p []byte) (int, error) {
@@ -76,9 +97,9 @@ func (w *vFaultyWriter) Write(p []byte) (int, error) {
 			n := len(p) * 3 / 4
 			w.buf.Write(p[:n])
 			w.writes = append(w.writes, n)
-			return n, io.ErrShortWrite
+			return n, w.fail(io.ErrShortWrite)
 		}
-		return 0, errVInjectedWrite
+		return 0, w.fail(errVInjectedWrite)
 	}
 	w.buf.Write(p)
 	w.writes = append(w.writes, len(p))
@@ -106,6 +127,7 @@ func init() {
 			WFailCall int    `json:"wfail_call"`
 			WShort    bool   `json:"wshort"`
 			WOnce     bool   `json:"wonce"`
+			WErrno    string `json:"werrno"`
 			Bar       bool   `json:"bar"`
 			BarMax    int    `json:"bar_max"`
 		}
@@ -119,7 +141,7 @@ func init() {
 			return nil, err
 		}
 		rd := &vFaultyReader{data: data, chunk: a.Chunk, failCall: a.RFailCall, failAfter: a.RFailAt, once: a.ROnce}
-		wr := &vFaultyWriter{failCall: a.WFailCall, short: a.WShort, once: a.WOnce}
+		wr := &vFaultyWriter{failCall: a.WFailCall, short: a.WShort, once: a.WOnce, errno: a.WErrno}
 		var bar *progressbar.ProgressBar
 		if a.Bar {
 			bar = progressbar.NewOptions64(int64(a.BarMax), progressbar.OptionSetWriter(io.Discard))
